@@ -8,6 +8,9 @@ import M3d.Lemmas.CodecStlAscii
 import M3d.Lemmas.CodecStlNumbers
 import M3d.Lemmas.CodecOff
 import M3d.Lemmas.CodecPlyHeader
+import M3d.Lemmas.CodecFace
+import M3d.Lemmas.CodecIndex
+import M3d.Lemmas.CodecDecLit
 import M3d.Model.CodecMesh
 /-!
 # C15 — mesh files round-trip through the library's writers and readers
@@ -355,6 +358,43 @@ theorem f32_round_finite_iff (n d : Nat) (hd : 0 < d) :
 successor, on the far side from the even neighbour) parses and reads as `0xc0000001`. -/
 example : parseF32 (ascii "-2.000000119209289550781250000001") = some 0xc0000001 := by decide +kernel
 
+/-- **`parseDec` reads a decimal literal as the number it denotes** (was: validated by the
+correspondence only).  For every literal of the grammar
+`[+-]? (digits [. digits*] | . digits+) ([eE] [+-]? digits+)?` given by its parts (`Lit`: optional
+sign, integer digits, optional `.` + fraction digits, optional exponent with `e`/`E`, optional sign
+and at least one digit; at least one digit before the exponent — `Lit.WF`), `parseDec` accepts the
+text and returns a `Dec` whose value is `± (ip.fp) · 10^exp` in base-10 positional notation
+(`Lit.value`, written with `digitsVal`: `digitsVal (a ++ b) = digitsVal a · 10^|b| + digitsVal b`),
+negative exactly when the sign is `-` (so `-0` keeps its sign). -/
+theorem dec_literal_denotes (l : Lit) (h : l.WF) :
+    ∃ d : Dec, parseDec l.bytes = some d ∧ d.value = l.value ∧ (d.neg = true ↔ l.sign = some true) :=
+  ⟨_, parseDec_lit l h, parseDec_lit_value l, by simp⟩
+
+/-- … hence the number parser of kind `stlr` returns, for every in-range literal of the grammar, a
+finite binary32 pattern than which **no pattern is closer to the number the literal denotes**, ties
+to the even significand — `stl_number_correctly_rounded` with the value of the literal spelled out
+in positional notation instead of through `parseDec`. -/
+theorem stl_literal_correctly_rounded (l : Lit) (h : l.WF) (w : UInt32) (hw : parseF32 l.bytes = some w) :
+    w.toNat % 2 ^ 31 < f32Inf ∧
+    ∀ w' : Nat, |f32valS w.toNat - l.value| ≤ |f32valS w' - l.value| ∧
+      (|f32valS w' - l.value| = |f32valS w.toNat - l.value| → f32valS w' ≠ f32valS w.toNat →
+        w.toNat % 2 = 0) := by
+  have := parseF32_correct l.bytes _ w (parseDec_lit l h) hw
+  rwa [parseDec_lit_value l] at this
+
+/-- Non-vacuity: `-.5E+01` (no integer digits, upper-case `E`, signed exponent) is a literal of the
+grammar, its text is the seven bytes written, it denotes −5, and the parser reads it as −5.0f. -/
+example :
+    let l : Lit := ⟨some true, [], some (ascii "5"), some (true, some false, ascii "01")⟩
+    l.bytes = ascii "-.5E+01" ∧ l.expVal = 1 ∧ digitsVal l.fp = 5 ∧
+      parseF32 l.bytes = some 0xc0a00000 := by decide +kernel
+
+example : (⟨some true, [], some (ascii "5"), some (true, some false, ascii "01")⟩ : Lit).WF :=
+  ⟨by decide, by decide, Or.inr (by decide), by
+    intro u s d hd
+    cases hd
+    exact ⟨by decide, by decide⟩⟩
+
 /-! ## OFF text written to the specification -/
 
 /-- **OFF to the specification is read back** (`off_spec`, kind `off`): the text `OFF` / `nv nf 0` / one
@@ -397,6 +437,95 @@ example :
     let pf : Bytes → Option UInt64 := fun s => (parseUintN 64 s).map UInt64.ofNat
     offDecode pf (offSpec fmt [(1, 2, 3), (4, 5, 6)] [[0, 1, 1]]) =
       some [[(1, 2, 3), (4, 5, 6), (4, 5, 6)]] := by decide +kernel
+
+/-! ### polygon faces through `model3d.ReadOFF` (kind `offp`)
+
+`ReadOFF` returns triangles: a face with more than three corners comes back as several triangles
+(`triangulateFileFace`).  "The same faces, in the same order and orientation" then means: the
+triangle list is, face after face in file order, a group of triangles that tile the face with the
+face's orientation.  `M3d.Codec.Face.checkFaces` (run by the driver at `Rat` on the exact values of
+the float64 coordinates, against the faces `offDecodeMesh` reads from the specification text —
+`off_mesh_spec`) decides exactly that; the theorems below say what its `true` means and that it
+accepts every correct answer. -/
+
+section OffPolygons
+open M3d.Tri M3d.Codec.Face
+variable {K : Type} [Field K] [LinearOrder K] [IsStrictOrderedRing K]
+
+/-- **`off_face_tiling_sound`** — what the face certificate establishes, for every planar face `f`
+(corner coordinates in file order) and every list `g` of triangles (corner coordinates) over every
+linear ordered field: if C14's verified 2-D checker accepts the triangles (as corner ids) in the
+coordinate chart along which the face's vector area `N = Σ pᵢ × pᵢ₊₁` does not vanish, for the
+boundary `0 → 1 → … → n−1 → 0` oriented like the face, and the face is exactly planar, then
+`TilesFace f g`: every triangle corner is a corner of the face; every triangle's `(b−a)×(c−a)` is a
+POSITIVE multiple `λ_t·N` of the face's vector area (so no triangle is turned over or degenerate)
+with `Σ λ_t = 1` (the triangle areas add up to exactly the face's area) and `Σ (b−a)×(c−a) = N`; and
+after splitting edges at face corners lying on them the triangles are glued along interior diagonals
+into a region whose boundary is the face's boundary, traversed in the face's direction. -/
+theorem off_face_tiling_sound (f : List (P3 K)) (g : List (T3 K))
+    (h : faceCertOk (cornerFn f) f.length (g.map (idTri f)) = true) : TilesFace f g :=
+  faceCert_tiles f g h
+
+/-- **`off_polygons_tiled`** (kind `offp`) — the verdict the driver prints.  If
+`checkFaces faces tris = true` for the faces of the file (in file order) and the triangles
+`ReadOFF` returned, then the triangle list splits into consecutive groups, one per face, in the
+order of the faces, nothing left over, and every group tiles its face with the face's orientation
+(`TilesFace`, see `off_face_tiling_sound`). -/
+theorem off_polygons_tiled (faces : List (List (P3 K))) (tris : List (T3 K))
+    (h : checkFaces faces tris = true) :
+    ∃ groups : List (List (T3 K)), tris = groups.flatten ∧ List.Forall₂ TilesFace faces groups := by
+  obtain ⟨groups, e, hall⟩ := checkFaces_sound faces tris h
+  exact ⟨groups, e, hall.imp fun {f g} hfg => faceCert_tiles f g hfg⟩
+
+/-- **`off_polygons_grouping_forced`** — the checker never has to guess (and so never rejects a
+correct answer because of) the grouping: whenever the triangle list IS a concatenation of groups
+that pass the face certificates of the faces in order, `checkFaces` accepts it.  (Every triangle of
+a valid group has a chart area of the sign of the face's, so the partial sums are strictly monotone
+and the only prefix that reaches the face's area is the group itself — `takeGroup_complete`.) -/
+theorem off_polygons_grouping_forced (faces : List (List (P3 K))) (groups : List (List (T3 K)))
+    (h : List.Forall₂ (fun f g => faceCertOk (cornerFn f) f.length (g.map (idTri f)) = true) faces groups) :
+    checkFaces faces groups.flatten = true :=
+  checkFaces_complete faces groups h
+
+/-- **`off_face_cover_partial`** — "the triangles do not overlap, stay inside the face and cover
+it", pointwise in the face's chart: under the face certificate, every point of the chart plane that
+is not on a triangle edge lies in exactly `±winding(face boundary)` triangles — exactly one where the
+boundary of the face winds once in its own direction, none where it does not wind.  `_partial`: it is
+stated relative to the winding number of the face's boundary (that a simple polygon winds `±1`
+around its interior points and `0` around the others — the polygonal Jordan curve theorem — is not
+mechanised; the driver checks simplicity of every generated face exactly). -/
+theorem off_face_cover_partial (c3 : Nat → P3 K) (n : Nat) (tris : List M3d.Surface.Tri)
+    (h : faceCertOk c3 n tris = true) :
+    ∃ k, chartOf (faceNormal c3 n) = some k ∧
+      ∀ p : P2 K,
+        let c := fun i => chartFn k (c3 i)
+        let cw := decide (comp k (faceNormal c3 n) < 0)
+        (∀ t ∈ tris, insideTri c cw t p = true ∨ outsideTri c cw t p = true) →
+        ((tris.filter fun t => insideTri c cw t p).length : K) = cwSign cw * winding c p (loopEdges [n]) :=
+  faceCertOk_cover c3 n tris h
+
+end OffPolygons
+
+/-- Non-vacuity and the failing input of a "split every quad along the 0–2 diagonal" reader: the
+arrow-head quadrilateral `(−2,−1) (0,0) (2,−1) (0,3)` (counter-clockwise, notch = second corner, area
+6) between two triangles.  Split along the inner diagonal 1–3 it passes; as the fan
+`{p0,p1,p2},{p0,p2,p3}` it does not (the first triangle is turned over, the second covers area 8);
+the same face in the oblique plane `z = x + 2y`, read from the other side, passes as well; and two
+groups in the wrong order do not. -/
+example :
+    let t0 : List (M3d.Tri.P3 Rat) := [⟨5, 5, 1⟩, ⟨6, 5, 1⟩, ⟨5, 6, 1⟩]
+    let q : List (M3d.Tri.P3 Rat) := [⟨-2, -1, 0⟩, ⟨0, 0, 0⟩, ⟨2, -1, 0⟩, ⟨0, 3, 0⟩]
+    let tr : M3d.Tri.P3 Rat × M3d.Tri.P3 Rat × M3d.Tri.P3 Rat := (⟨5, 5, 1⟩, ⟨6, 5, 1⟩, ⟨5, 6, 1⟩)
+    let p := fun (i : Nat) => q.getD i ⟨0, 0, 0⟩
+    let ob := fun (v : M3d.Tri.P3 Rat) => (⟨v.x, v.y, v.x + 2 * v.y⟩ : M3d.Tri.P3 Rat)
+    M3d.Codec.Face.checkFaces [t0, q, t0] [tr, (p 0, p 1, p 3), (p 1, p 2, p 3), tr] = true ∧
+    M3d.Codec.Face.checkFaces [t0, q, t0] [tr, (p 0, p 1, p 2), (p 0, p 2, p 3), tr] = false ∧
+    M3d.Codec.Face.checkFaces [q, t0] [tr, (p 0, p 1, p 3), (p 1, p 2, p 3)] = false ∧
+    M3d.Codec.Face.checkFaces [(q.map ob).reverse]
+      [(ob (p 3), ob (p 1), ob (p 0)), (ob (p 3), ob (p 2), ob (p 1))] = true ∧
+    M3d.Codec.Face.checkFaces [(q.map ob).reverse]
+      [(ob (p 0), ob (p 1), ob (p 3)), (ob (p 1), ob (p 2), ob (p 3))] = false := by
+  decide +kernel
 
 /-! ## segment CSV -/
 
@@ -466,5 +595,31 @@ theorem threemf_indices_in_range (ts : List Tri3) :
   obtain ⟨p, hp, rfl⟩ := List.mem_map.mp hi
   have hmem : p ∈ ts.flatMap Tri3.corners := List.mem_flatMap.mpr ⟨t, ht, hp⟩
   exact (dedup_index key3 (ts.flatMap Tri3.corners) p hmem).1
+
+/-- **Index meshes reference every face exactly once, and the reference IS that face** (`newIndexMesh`
+→ `Write3MF`, also `WritePLY` / `BuildVertexColorOBJ`; kind `3mf`): there is one index triple per
+triangle, in the order the triangles are visited, and resolving the three indices against the vertex
+table gives corners `==` to the triangle's corners (same keys: −0 ≡ +0), in the same order
+(orientation) — for every triangle list, hence for whichever order Go's map iteration visits the
+mesh in. -/
+theorem mesh_index_resolves (ts : List Tri3) :
+    (meshIndex ts).2.length = ts.length ∧
+    (meshIndex ts).2.map (fun f => f.map fun j => key3 ((meshIndex ts).1.getD j (0, 0, 0))) =
+      ts.map fun t => t.corners.map key3 :=
+  ⟨by simp [meshIndex], meshIndex_resolves ts⟩
+
+/-- **The vertex table has one entry per distinct coordinate, whatever the order of the visit**: its
+length is the number of distinct keys among all corners, so any two orders of the same triangles
+(`Write3MF` iterates a Go map) give tables of the same size. -/
+theorem mesh_index_table_size (ts ts' : List Tri3) (h : ts.Perm ts') :
+    (meshIndex ts).1.length = ((ts.flatMap Tri3.corners).map key3).toFinset.card ∧
+    (meshIndex ts).1.length = (meshIndex ts').1.length :=
+  ⟨dedup_length_card key3 _, dedup_length_perm key3 (h.flatMap_right _)⟩
+
+/-- Non-vacuity: two triangles sharing an edge, one corner written once as −0 and once as +0. -/
+example :
+    let a : C3 := (0, 0, 0); let a' : C3 := (negZero64, 0, 0); let b : C3 := (1, 0, 0)
+    let c : C3 := (0, 1, 0); let d : C3 := (1, 1, 0)
+    meshIndex [(a, b, c), (b, a', d)] = ([a, b, c, d], [[0, 1, 2], [1, 0, 3]]) := by decide +kernel
 
 end M3d.C15
